@@ -1,7 +1,7 @@
 #!/bin/bash
 # dev helper: run all 18 checks on the tree in $1 (parallel), print only non-passing obligations
 D=$1
-ALL="C01 C02 C03 C04 C05 C08 C09 C10 C11 C12 C13 C14 C15 C16 C17 C18 C19 C20"
+ALL="C01 C02 C03 C04 C05 C07 C08 C09 C10 C11 C12 C13 C14 C15 C16 C17 C18 C19 C20"
 T=$(mktemp -d)
 for p in $ALL; do echo $p; done | xargs -P 8 -I{} sh -c "VERIF_REPO=$D VERIF_NO_EVIDENCE=1 /verif/check {} > $T/{}.txt 2>&1; echo \$? > $T/{}.rc"
 for p in $ALL; do rc=$(cat $T/$p.rc); if [ "$rc" != "0" ]; then echo "--- $p exit=$rc"; grep "violated\|ANALYSIS-ERROR" $T/$p.txt | cut -c1-${2:-240} | head -${3:-5}; fi; done
